@@ -19,11 +19,12 @@ import (
 type PropSpec struct {
 	Pkgs      []string `json:"pkgs"`
 	Functions []struct {
-		Key         string   `json:"key"`
-		Labels      []string `json:"labels,omitempty"`       // if set: only obligations whose label matches one of these regexps (plus pre/safe/cover of the function)
-		Exclude     []string `json:"exclude,omitempty"`      // obligation-name regexps to skip
-		Instances   []string `json:"instances,omitempty"`    // bounded instances (contract `instance` clauses) to verify in addition
-		NoUnbounded bool     `json:"no_unbounded,omitempty"` // verify only the bounded instances of this function
+		Key               string   `json:"key"`
+		Labels            []string `json:"labels,omitempty"`             // if set: only obligations whose label matches one of these regexps (plus pre/safe/cover of the function)
+		Exclude           []string `json:"exclude,omitempty"`            // obligation-name regexps to skip
+		Instances         []string `json:"instances,omitempty"`          // bounded instances (contract `instance` clauses) to verify in addition
+		NoUnbounded       bool     `json:"no_unbounded,omitempty"`       // verify only the bounded instances of this function
+		ThoroughInstances []string `json:"thorough_instances,omitempty"` // extra instances run in the thorough tier only
 	} `json:"functions"`
 	Sweep *struct {
 		Pkgs  []string `json:"pkgs"`  // package dirs whose functions are all swept (zero annotation)
@@ -162,6 +163,11 @@ func cmdCheck(args []string) int {
 		}
 		for _, in := range f.Instances {
 			jobs = append(jobs, job{f.Key, in, nil, nil})
+		}
+		if *tier == "thorough" {
+			for _, in := range f.ThoroughInstances {
+				jobs = append(jobs, job{f.Key, in, nil, nil})
+			}
 		}
 	}
 	sweepFns := map[string]bool{}
